@@ -65,6 +65,8 @@ def swarm(rng: random.Random, prop: str, tier: str) -> dict:
         "subset": p.get("subset", 0.5),
         "f2": rng.choice([0.0, 0.0, 0.6]) if p.get("io") else 0.0,
         "sweep": 0.15 if (prop in ("C14", "C16") and tier == "thorough") else 0.0,
+        # share of node/edge selectors redirected to what the last effective operation touched
+        "locality": rng.choice([0.0, 0.0, 0.3, 0.6]),
     }
     return cfg
 
@@ -73,9 +75,18 @@ def world_constraints(prop: str) -> dict:
     return dict(PROFILES[prop].get("world", {}))
 
 
+_LOC = [0.0]  # locality of the run being generated (set by gen_op from cfg)
+
+
 def _sel(rng, classes=None):
+    """A state-relative node selector. With the run's locality the class is replaced by
+    "recent" (a node the last effective operation touched): dependent edits on the same
+    few nodes are what order-sensitive undo/rollback code needs to be wrong about."""
     classes = classes or NODE_CLASSES
-    return [rng.choice(classes), rng.randrange(64)]
+    sel = [rng.choice(classes), rng.randrange(64)]
+    if _LOC[0] and rng.random() < _LOC[0]:
+        sel[0] = "recent"
+    return sel
 
 
 def _track(rng, cfg):
@@ -99,6 +110,7 @@ def gen_op(rng: random.Random, cfg: dict, kind: str | None = None) -> dict:
     reinv = rng.random() < cfg["reinvert"]
     fl = cfg["flags"]
     op: dict = {"op": kind}
+    _LOC[0] = cfg.get("locality", 0.0)
     if kind == "add_node":
         op.update(
             t=rng.randrange(12), track=_track(rng, cfg),
@@ -107,6 +119,9 @@ def gen_op(rng: random.Random, cfg: dict, kind: str | None = None) -> dict:
             pix={"o": [rng.random() for _ in range(3)], "ext": [rng.randint(1, 3) for _ in range(3)], "pat": rng.choice(["box", "box", "scatter", "single"])},
             pos=[rng.random() for _ in range(3)], bogus_attrs=rng.random() < 0.15, reuse_dict=rng.random() < 0.3,
             no_pixels_with_pos=bool(fl.get("nopix")) and rng.random() < 0.01,
+            # a client that fills in the lineage id itself: the one the named track has
+            # when the call is made, or the one of the node whose attributes it copied
+            lineage=rng.choice([None] * 8 + ["of_track", "of_any"]),
         )
         if inval:
             op["invalid"] = rng.choice(["exists", "no_time", "no_track", "no_pos", "no_pos", "partial_pos", "id_overflow", "bad_pixels"])
@@ -139,6 +154,8 @@ def gen_op(rng: random.Random, cfg: dict, kind: str | None = None) -> dict:
         if fl.get("division_bias"):
             cls += ["division", "division"]
         op.update(e=[rng.choice(cls), rng.randrange(64)], reinvert=reinv)
+        if _LOC[0] and rng.random() < _LOC[0]:
+            op["e"][0] = "recent"
         if inval:
             op["invalid"] = "missing"
     elif kind == "swap":
